@@ -47,7 +47,7 @@ pub fn expected_result(call: CallId, req: &Req) -> Option<CallResult> {
             let frame = |i: usize| -> DFrame { vreq_reply(k, n, i as u64, *shape + i as u64).decoded() };
             match fail_at {
                 None => Some(CallResult::Frames((0..*len).map(frame).collect())),
-                Some((f, code)) => Some(CallResult::ErrResponse { error: vfail_error(k, n, *f as u64, *code), frames: (0..*f).map(frame).collect() }),
+                Some((f, code)) => Some(CallResult::ErrResponse { error: vfail_error(k, n, *f as u64, *code % 1000), frames: (0..*f).map(frame).collect() }),
             }
         }
         Req::TypedTuple { arity, rot, base } => Some(CallResult::Typed(typedlists::expected(*arity, *rot, &typedlists::toks(*base, *arity)))),
